@@ -234,6 +234,7 @@ def run(ctx):
     shared.deferral_is_surgical(ctx, '3')
     shared.requeued_change_set_is_flagged(ctx, '3r')
     shared.workers_own_tree_lock_is_not_a_reader(ctx, '1w')
+    shared.last_reference_removal_waits_for_readers(ctx, '2x')
     shared.lock_kept_while_the_database_is_shared(ctx, '6l')       # F76: a held guard survives drop + reopen of the handle
     # the used_trees mark of a commit is what makes a removal of a tree it shares nodes with wait. It has to be computed where the
     # queue position of the commit is decided - with the commit queue locked: a removal counted in to_dereference by then is seen,
